@@ -285,6 +285,10 @@ private:
     //  fTypeStack
     //      Stack of complex type declarations.
     //
+    //  fNilStack
+    //      Stack of the xsi:nil state of the elements being validated, pushed
+    //      in validateElement and popped in checkContent like fTypeStack.
+    //
     //  fMostRecentAttrValidator
     //      DatatypeValidator that validated attribute most recently processed
     //
@@ -305,6 +309,7 @@ private:
     bool                            fSeenId;
     XSDErrorReporter                fSchemaErrorReporter;
     ValueStackOf<ComplexTypeInfo*>* fTypeStack;
+    ValueStackOf<bool>*             fNilStack;
     DatatypeValidator *             fMostRecentAttrValidator;
     bool                            fErrorOccurred;
     bool                            fElemIsSpecified;
